@@ -448,6 +448,14 @@ func (fc *FnCtx) specSel(env *SpecEnv, e *SSel) Val {
 		key := "F$" + structKeyName(x.Ty) + ".ghost_" + g.Name
 		return Val{sel(fc.comp(st, key, "(Array Int "+fc.smt.sortOf(gt)+")"), x.T), gt}
 	}
+	if _, su, _ := derefStruct(x.Ty); su == nil {
+		// method value on a non-struct (e.g. interface) value
+		if obj, _, _ := types.LookupFieldOrMethod(x.Ty, true, nil, e.Name); obj != nil {
+			if m, ok := obj.(*types.Func); ok {
+				return Val{fc.methodValueTerm(x, m), m.Type()}
+			}
+		}
+	}
 	if _, su, _ := derefStruct(x.Ty); su != nil {
 		obj, idx, _ := types.LookupFieldOrMethod(x.Ty, true, nil, e.Name)
 		if obj == nil {
@@ -559,6 +567,14 @@ func (fc *FnCtx) specCall(env *SpecEnv, e *SCall) Val {
 				top = env.old.top
 			}
 			return Val{"(> " + t + " " + top + ")", boolT}
+		case "allocated":
+			// the value refers to storage that exists in the current state (not to a later allocation)
+			x := args(0)
+			t := x.T
+			if _, ok := x.Ty.Underlying().(*types.Slice); ok {
+				t = "(s_base " + x.T + ")"
+			}
+			return Val{"(<= " + t + " " + st.top + ")", boolT}
 		case "typeis":
 			x := args(0)
 			tn := specTypeText(e.Args[1])
@@ -947,8 +963,19 @@ func (eng *Engine) ghostField(t types.Type, name string) *GhostField {
 		return nil
 	}
 	for _, g := range eng.ghosts {
-		if g.Name == name && g.Type == n.Obj().Name() && (n.Obj().Pkg() == nil || g.Pkg == n.Obj().Pkg().Path()) {
+		if g.Name != name {
+			continue
+		}
+		if g.Type == n.Obj().Name() && (n.Obj().Pkg() == nil || g.Pkg == n.Obj().Pkg().Path()) {
 			return g
+		}
+		// ghost field declared on a type of another package: `ghost yamux.Session.closed bool`
+		if strings.Contains(g.Type, ".") {
+			if gt := eng.resolveType(eng.pkgs[g.Pkg], g.Type); gt != nil {
+				if gn := namedOf(gt); gn != nil && gn.Obj() == n.Obj() {
+					return g
+				}
+			}
 		}
 	}
 	return nil
